@@ -775,6 +775,14 @@ class TrueTypeFont:
             pass
 
     def create_unicode_map(self) -> FileUnicodeMap:
+        try:
+            return self._create_unicode_map()
+        except struct.error:
+            # The cmap table is cut short or corrupt: like the table directory
+            # in __init__, that should not fail the whole font.
+            raise TrueTypeFont.CMapNotFound
+
+    def _create_unicode_map(self) -> FileUnicodeMap:
         if b"cmap" not in self.tables:
             raise TrueTypeFont.CMapNotFound
         (base_offset, length) = self.tables[b"cmap"]
